@@ -103,8 +103,18 @@ def check_history(case, stats):
     kept = []  # (index, result object as returned, snapshot taken when it was returned)
     kept_exc = []  # (index, exception object as raised, its errors as read when it was raised)
     for i, (text, stop) in enumerate(items):
-        r = gh.parse(text, parser=parser, matcher=matcher, stop=stop) if own else parse_default(parser, text, stop)
-        if r[0] != "ok" and not stop and i + 1 < len(items):
+        mixed = case.get("mixed_call_styles") and dflt != "en"
+        if mixed:
+            # call styles alternate on ONE parser: an explicit matcher of another dialect, then none at all (= a fresh English one)
+            if i % 2 == 0:
+                r = gh.parse(text, parser=parser, matcher=gh.TokenMatcher(dflt), stop=stop)
+                want = fresh(text, dflt, stop)
+            else:
+                r = parse_default(parser, text, stop)
+                want = fresh(text, "en", stop)
+        else:
+            r = gh.parse(text, parser=parser, matcher=matcher, stop=stop) if own else parse_default(parser, text, stop)
+        if not mixed and r[0] != "ok" and not stop and i + 1 < len(items):
             # the same rejection once more, this time keeping the exception object itself while the parser goes on
             parser.stop_at_first_error = False
             try:
@@ -114,7 +124,8 @@ def check_history(case, stats):
             except gh.ParserException:
                 pass
         got = norm_result(r)
-        want = fresh(text, dflt, stop)
+        if not mixed:
+            want = fresh(text, dflt, stop)
         if i > 0 and perturbed:
             nt = True
         if got != want:
@@ -157,7 +168,7 @@ def unit_pool(a):
                         if k == 3 and a["sample"] and (n // a["nshards"]) % a["sample"] != a["seed"] % a["sample"]:
                             continue
                         yield {"sub": "history", "default": dflt, "names": list(hist), "items": [[POOL[h], s] for h, s in zip(hist, stops)], "check_dialects": n % 50 == 0,
-                               "own_matcher": not (dflt == "en" and n % 2), "dirty_matcher": n % 3 == 0}
+                               "own_matcher": not (dflt == "en" and n % 2), "dirty_matcher": n % 3 == 0, "mixed_call_styles": n % 5 == 0}
     sweep(stats, gen(), check_history)
     return stats
 
